@@ -29,6 +29,9 @@ func (m *Machine) callBuiltin(th *Thread, b *ssa.Builtin, args []Value, caller *
 			}
 			return ts.Const(64, uint64(len(a.v.(ArrayV).e)))
 		case *MapV:
+			if a != nil && a.sh != nil {
+				m.raceAccess(th, a.sh, false)
+			}
 			return ts.Const(64, uint64(a.length()))
 		case *ChanV:
 			if a == nil {
@@ -88,17 +91,21 @@ func (m *Machine) callBuiltin(th *Thread, b *ssa.Builtin, args []Value, caller *
 			copy(cells, s.cells)
 			full := cells[:nc]
 			et := b.Type().(*types.Signature).Params().At(0).Type().Underlying().(*types.Slice).Elem()
+			monNew := m.raceOn && caller != nil && caller.info.monitor
 			for i := len(s.cells); i < nc; i++ {
 				if i < n {
-					full[i] = &Cell{}
+					full[i] = &Cell{mon: monNew}
 				} else {
-					full[i] = &Cell{v: m.zero(et)}
+					full[i] = &Cell{v: m.zero(et), mon: monNew}
 				}
 			}
 			// cells below len(s.cells) are shared with the old array only by identity of the
 			// *Cell; Go copies them: make fresh cells so that old and new arrays are independent
 			for i := 0; i < len(s.cells); i++ {
-				full[i] = &Cell{v: s.cells[i].v}
+				if s.cells[i].mon {
+					m.raceAccess(th, s.cells[i], false)
+				}
+				full[i] = &Cell{v: s.cells[i].v, mon: monNew}
 			}
 		}
 		for i, v := range add {
@@ -137,12 +144,18 @@ func (m *Machine) callBuiltin(th *Thread, b *ssa.Builtin, args []Value, caller *
 		return ts.Const(64, uint64(n))
 	case "delete":
 		mp := args[0].(*MapV)
+		if mp != nil && mp.sh != nil {
+			m.raceAccess(th, mp.sh, true)
+		}
 		mp.del(m.hashKey(args[1]))
 		return nil
 	case "clear":
 		switch a := args[0].(type) {
 		case *MapV:
 			if a != nil {
+				if a.sh != nil {
+					m.raceAccess(th, a.sh, true)
+				}
 				a.m = map[any]*mapEntry{}
 				a.keys = nil
 			}
